@@ -1495,6 +1495,20 @@ func (e *Entry) dup() *Entry {
 		ne.ListAttr = &la
 	}
 
+	// Likewise the input and output of an rpc or action are part of the
+	// subtree and are copied and re-parented with it.
+	if e.RPC != nil {
+		ne.RPC = &RPCEntry{}
+		if e.RPC.Input != nil {
+			ne.RPC.Input = e.RPC.Input.dup()
+			ne.RPC.Input.Parent = &ne
+		}
+		if e.RPC.Output != nil {
+			ne.RPC.Output = e.RPC.Output.dup()
+			ne.RPC.Output.Parent = &ne
+		}
+	}
+
 	ne.Extra = make(map[string][]interface{})
 	for k, v := range e.Extra {
 		ne.Extra[k] = v
